@@ -12,6 +12,7 @@ import (
 	"crypto/sha256"
 	"fmt"
 	"math/rand"
+	"os"
 	"sync"
 	"sync/atomic"
 	"testing"
@@ -74,6 +75,9 @@ func newConn(cache int, maxSize uint32) (*conn, error) {
 			cfg.ConnectionCacheSize = uint16(cache)
 			cfg.MaxMessageSize = maxSize
 			cfg.ReceivedMessageQueueSize = 4
+			// framing only: with block-wise enabled a generated CSM carrying the Block-Wise-Transfer option
+			// would switch the block-wise layer on, which (correctly) keeps fragments from the handler
+			cfg.BlockwiseEnable = false
 		},
 		Handler: func(w *responsewriter.ResponseWriter[*tcpclient.Conn], r *pool.Message) {
 			body, _ := r.ReadBody()
@@ -299,6 +303,9 @@ func TestRun(t *testing.T) {
 	for i := 0; i < nLong; i++ {
 		gs := seed*4099 + int64(i)
 		i := i
+		if only := os.Getenv("VERIF_C07_ONLY_GS"); only != "" && only != fmt.Sprint(gs) {
+			continue // debugging aid: replay one long-sequence case
+		}
 		add(func() {
 			r := rand.New(rand.NewSource(gs))
 			k := 1 + r.Intn(30)
